@@ -882,16 +882,31 @@ class PSBT(EmbitBase):
             for k in [b"\x04", b"\x05"]:
                 if k in unknown and compact.from_bytes(unknown[k]) > remaining:
                     raise PSBTError("Number of scopes is larger than the stream")
+        counts = None
+        if version == 2:
+            # scopes of PSBTv2 are created while they are read, not according to the counters:
+            # a counter larger than the stream can't be true and reading stops at the end of the stream
+            counts = [
+                compact.from_bytes(unknown.pop(k)) if k in unknown else 0
+                for k in [b"\x04", b"\x05"]
+            ]
         psbt = cls(tx, unknown, version=version)
-        # input scopes, in PSBTv2 all transaction fields come from the scope itself
+        if counts is not None:
+            # in PSBTv2 all transaction fields come from the scope itself
+            for _ in range(counts[0]):
+                psbt.inputs.append(cls.PSBTIN_CLS.read_from(stream, compress=compress))
+            for _ in range(counts[1]):
+                psbt.outputs.append(cls.PSBTOUT_CLS.read_from(stream, compress=compress))
+            return psbt
+        # input scopes
         for i in range(len(psbt.inputs)):
             psbt.inputs[i] = cls.PSBTIN_CLS.read_from(
-                stream, compress=compress, vin=(tx.vin[i] if tx else None)
+                stream, compress=compress, vin=tx.vin[i]
             )
         # output scopes
         for i in range(len(psbt.outputs)):
             psbt.outputs[i] = cls.PSBTOUT_CLS.read_from(
-                stream, compress=compress, vout=(tx.vout[i] if tx else None)
+                stream, compress=compress, vout=tx.vout[i]
             )
         return psbt
 
